@@ -187,7 +187,7 @@ class Harness:
         self.ctx = ctx
         fn = absint.funcs(ctx, NET, {'heappush': heappush, 'heappop': heappop, 'heapify': heapify, 'Obs': O, 'ENUCoords': P})
         fn['deepcopy'] = absint.deep_copy
-        fn['progressbar'] = lambda x, **k: x
+        fn['progressbar'] = lambda x, **k: (v_ for v_ in x)
         self.fn = fn
         self.Track = absint.classref(ctx, 'tracklib.core.track.Track', fn)
         self.Node = absint.classref(ctx, NET + '.Node', fn)
